@@ -1282,7 +1282,7 @@ func (p *Printer) command(cmd Command, redirs []*Redirect) (startRedirs int) {
 		p.semiRsrv("done", cmd.DonePos)
 	case *BinaryCmd:
 		p.stmt(cmd.X)
-		if p.minify || p.singleLine || cmd.Y.Pos().Line() <= p.line {
+		if p.minify || (p.singleLine && len(cmd.Y.Comments) == 0) || cmd.Y.Pos().Line() <= p.line {
 			// leave p.nestedBinary untouched
 			p.spacedToken(cmd.Op.String(), cmd.OpPos)
 			p.advanceLine(cmd.Y.Pos().Line())
